@@ -150,6 +150,44 @@ class HDocDerived(HDocSample):
         """
 
 
+@h_doc
+class HDocNoted:
+    """A user's class that annotates its methods in the help (the documented _get_hdoc_method_notes hook)"""
+
+    def _get_hdoc_method_notes(self, bound_method, _c):
+        from ak.hdoc import BoundMethodNotes
+        name = bound_method.__name__
+        if name == "same_text":
+            # the short note highlighted, the note line the same words in plain
+            return BoundMethodNotes(False, CHText(_c.warn("<n/a>")), "<n/a>")
+        if name == "two_colours":
+            return BoundMethodNotes(False, CHText(_c.warn("busy")), CHText(_c.tag("busy")))
+        if name == "plain_notes":
+            return BoundMethodNotes(True, "ok", "ok")
+        return BoundMethodNotes(True, "", "a note line only")
+
+    def same_text(self):
+        """Not available here
+
+        #main
+        """
+
+    def two_colours(self, x):
+        """Busy method
+
+        #main
+        """
+
+    def plain_notes(self):
+        """Plain notes
+
+        #extra
+        """
+
+    def other(self):
+        """Something else"""
+
+
 def _make_mcaller():
     from ak.mcaller_http import MCallerHttp, method_http
 
@@ -198,6 +236,10 @@ def hdoc_object(name):
         return HDocSample()
     if name == "derived":
         return HDocDerived()
+    if name == "noted":
+        return HDocNoted()
+    if name == "noted_method":
+        return HDocNoted().same_text
     if name == "method":
         return HDocSample().method_one
     if name == "mcaller":
